@@ -49,6 +49,8 @@ def compare(case, run):
     if run["status"] == "ok" and e["status"] == "ok" and not cancelled and not out:
         if bag(run["pkgs"]) != bag(e["pkgs"]):
             out.append("inventory differs: observed %s, specification says %s" % (run["pkgs"], e["pkgs"]))
+        elif run.get("ties", 0) != sum(t[3] for t in e["pkgs"]):
+            out.append("%d of %d tie packages reported" % (run.get("ties", 0), sum(t[3] for t in e["pkgs"])))
         if run["plugins"] != e["plugins"]:
             out.append("plugin statuses %s, specification says %s" % (run["plugins"], e["plugins"]))
         if not run["sorted"]:
